@@ -563,7 +563,7 @@ POLYS = {
     'rect_cw': [(5.0, 5.0), (5.0, 45.0), (55.0, 45.0), (55.0, 5.0)],
     'tri': [(5.0, 5.0), (65.0, 10.0), (30.0, 55.0)],
     'tri_axes': [(0.0, 20.0), (40.0, 0.0), (50.0, 45.0)],
-    'strip60x20': [(0.0, 0.0), (60.0, 0.0), (60.0, 20.0), (0.0, 20.0)],   # narrower than the larger spacings: exhibits F-C14-lot-narrower-than-spacing
+    'strip60x20': [(0.0, 0.0), (60.0, 0.0), (60.0, 20.0), (0.0, 20.0)],   # narrower than the larger spacings (single-row case, fixed in 48f126a)
     'hexagon': [(20.0, 0.0), (50.0, 0.0), (65.0, 26.0), (50.0, 52.0), (20.0, 52.0), (5.0, 26.0)],
 }
 ROTS = [0.0, 0.3, -0.6, math.pi / 4, -1.2]
